@@ -14,7 +14,7 @@ import (
 
 type Leaf struct {
 	Shape   []int     `json:"shape"`
-	Vals    []float64 `json:"vals"`
+	Vals    F64s      `json:"vals"`
 	Tracked bool      `json:"tracked"`
 }
 
